@@ -10,7 +10,7 @@
    Universes (Ops, Rcs, ...) are parameters; the definitions are unbounded. *)
 EXTENDS RegistriesTables
 
-CONSTANTS Ops, Rcs, Vers, ELos,          \* header machine: opcodes, rcodes, EDNS versions, EDNS low limbs offered
+CONSTANTS Ops, Rcs, Names, Vers, ELos,   \* header machine: opcodes, rcodes, flag names, EDNS versions, EDNS low limbs offered
           RVals, RTexts                   \* registration machine: values and texts offered
 VARIABLES flags, ehi, elo, opt,           \* header word; EDNS TTL limbs; is there an OPT record
           regs                            \* sequence of registrations <<value, text, singleton>>
@@ -52,7 +52,7 @@ NoEdns == opt' = FALSE /\ ehi' = 0 /\ elo' = 0 /\ UNCHANGED <<flags, regs>>
 
 HNext == \/ \E op \in Ops : SetOpcode(op)
          \/ \E r \in Rcs : SetRcode(r)
-         \/ \E n \in ToSet(FlagNames) : Raise(n) \/ Clear(n)
+         \/ \E n \in Names : Raise(n) \/ Clear(n)
          \/ \E b \in BOOLEAN : WantDnssec(b)
          \/ \E ver \in Vers, lo \in ELos : UseEdns(ver, 0, lo)
          \/ NoEdns
@@ -62,7 +62,7 @@ FlagBits == And(flags, FlagsMask, 16)
 OpcodeFrame == [][\A op \in Ops : SetOpcode(op) => Opcode' = op /\ Rcode' = Rcode /\ FlagBits' = FlagBits /\ Tokens' = Tokens]_vars
 RcodeFrame == [][\A r \in Rcs : SetRcode(r) => Rcode' = r /\ Opcode' = Opcode /\ FlagBits' = FlagBits
                                   /\ (opt => Version' = Version) /\ ETokens' = ETokens]_vars
-FlagFrame == [][\A n \in ToSet(FlagNames) :
+FlagFrame == [][\A n \in Names :
                   /\ Raise(n) => Opcode' = Opcode /\ Rcode' = Rcode /\ ToSet(Tokens') = ToSet(Tokens) \cup {n}
                   /\ Clear(n) => Opcode' = Opcode /\ Rcode' = Rcode /\ ToSet(Tokens') = ToSet(Tokens) \ {n}]_vars
 DnssecFrame == [][\A b \in BOOLEAN : WantDnssec(b) => flags' = flags /\ Rcode' = Rcode /\ (opt => Version' = Version)
